@@ -20,6 +20,10 @@ structure WellFormed (m : Message) (h : Header) : Prop where
   /-- field names are non-empty lower-case tokens, values legal field-value bytes (RFC 9110) -/
   regular : ∀ f ∈ m.headers, RegularOk f
   trailersRegular : ∀ t, m.trailers = some t → ∀ f ∈ t, RegularOk f
+  /-- the application can hold the fields in an `http::HeaderMap` at all: none of its `append`s
+      finds 24576 distinct names in the map already (any number of values per name) -/
+  holdable : Holdable m.headers
+  trailersHoldable : ∀ t, m.trailers = some t → Holdable t
   /-- octets; Huffman codings that fit a `Vec` (C11's domain) -/
   encodable : FieldsEncodable h.wireFields
   trailersEncodable : ∀ t, m.trailers = some t → FieldsEncodable (Header.trailer (mapOf t)).wireFields
@@ -28,14 +32,11 @@ structure WellFormed (m : Message) (h : Header) : Prop where
   blockLen : (fieldSection h).length < 2^62
   trailerLen : ∀ t, m.trailers = some t → (trailerSection t).length < 2^62
 
-/-- what the receiver's configuration and `http::HeaderMap` allow -/
+/-- what the receiver's configuration allows -/
 structure Fits (m : Message) (h : Header) (L : Nat) : Prop where
   /-- RFC 9114 §4.2.2 size of the field sections within `max_field_section_size = L` (C10) -/
   size : sectionSize h.wireFields ≤ L
   trailerSize : ∀ t, m.trailers = some t → sectionSize (Header.trailer (mapOf t)).wireFields ≤ L
-  /-- `HeaderMap::try_with_capacity(number of fields)` succeeds at the receiver -/
-  count : h.wireFields.length ≤ 24576
-  trailerCount : ∀ t, m.trailers = some t → (Header.trailer (mapOf t)).wireFields.length ≤ 24576
 
 /-- The head of the message survives the trip, and `out` is what the receiving application is
     handed.  Requests (received by the server): the method is a token; `:scheme`, `:authority`,
@@ -170,14 +171,14 @@ theorem head_block (H : Http) (role : Role) (m : Message) (h : Header) (out : He
   | request m method uri ext u hm hp hb =>
     have hreq : Header.request method uri (mapOf m.headers) ext = .ok h := by
       have := hwf.header; unfold headerOf at this; rw [hm] at this; exact this
-    have hr := recvRequest_sent H method uri ext m.headers u h hreq ⟨hp, hwf.regular, hb⟩ hfit.count
+    have hr := recvRequest_sent H method uri ext m.headers u h hreq ⟨hp, hwf.regular, hb⟩ hwf.holdable
     obtain ⟨a, b⟩ := decodeWith_fieldSection (recvRequest H) h hwf.encodable L hfit.size
     simp only [hdrOf, decodeHead, a, b, hr, classOf, optOf, Option.map_some, and_self]
   | response m status hm h1 h2 =>
     have hresp : h = Header.response status (mapOf m.headers) := by
       have := hwf.header; unfold headerOf at this; rw [hm] at this; cases this; rfl
     subst hresp
-    have hr := recvResponse_sent H status m.headers h1 h2 hwf.regular hfit.count
+    have hr := recvResponse_sent H status m.headers h1 h2 hwf.regular hwf.holdable
     obtain ⟨a, b⟩ := decodeWith_fieldSection (recvResponse H) _ hwf.encodable L hfit.size
     simp only [hdrOf, decodeHead, a, b, hr, classOf, optOf, Option.map_some, and_self]
 
@@ -185,7 +186,7 @@ theorem trailer_block (H : Http) (role : Role) (m : Message) (h : Header) (L : N
     (hwf : WellFormed m h) (hfit : Fits m h L) (t : List FieldLine) (ht : m.trailers = some t) :
     (hdrOf H role L).trailer (trailerSection t) = .ok ∧
     decodeWith L (recvTrailers H) (trailerSection t) = some (mapOf t) := by
-  have hr := recvTrailers_sent H t (hwf.trailersRegular t ht) (hfit.trailerCount t ht)
+  have hr := recvTrailers_sent H t (hwf.trailersRegular t ht) (hwf.trailersHoldable t ht)
   obtain ⟨a, b⟩ := decodeWith_fieldSection (recvTrailers H) _ (hwf.trailersEncodable t ht) L
     (hfit.trailerSize t ht)
   unfold trailerSection
